@@ -57,3 +57,6 @@ def declare(reg):
         ghost={"globals": G, "harness": "harness.throttle:Throttle"},
         props=["C18"],
     )
+    reg.properties.setdefault("C18", {}).setdefault("bounded", []).append(
+        {"name": "throttle-timed-histories", "module": "harness.throttle", "func": "Throttle"}
+    )
